@@ -8,6 +8,9 @@ use std::{
     time::Duration,
 };
 
+#[cfg(emit_rs_emit_verif)]
+use emit_batcher::verif::tokio_shim as tokio;
+
 use bytes::Buf;
 use emit::well_known::{KEY_SPAN_ID, KEY_TRACE_ID};
 use hyper::{
@@ -28,6 +31,20 @@ async fn connect(
     version: HttpVersion,
     uri: &HttpUri,
 ) -> Result<HttpSender, Error> {
+    // Under simulation the connection is an in-memory stream handed out by the simulator
+    #[cfg(emit_rs_emit_verif)]
+    if let Some(hooks) = emit_batcher::verif::current() {
+        let io = hooks.connect(uri.host(), uri.port()).await.map_err(|e| {
+            metrics.transport_conn_failed.increment();
+
+            Error::new("failed to connect TCP stream", e)
+        })?;
+
+        metrics.transport_conn_established.increment();
+
+        return http_handshake(metrics, version, io).await;
+    }
+
     let io = tokio::net::TcpStream::connect((uri.host(), uri.port()))
         .await
         .map_err(|e| {
